@@ -110,6 +110,14 @@ func (s *APISer) navPath(t *Type, nav []NavStep, forWrite bool) (string, *Type, 
 	return strings.Join(parts, "/"), t, true
 }
 
+// joinPath appends one step to a path text ("-" = the node itself).
+func joinPath(path, step string) string {
+	if path == "-" || path == "" {
+		return step
+	}
+	return path + "/" + step
+}
+
 func valText(t *Type, a any) (string, bool) {
 	rv := reflect.ValueOf(a)
 	switch t.Kind {
@@ -295,7 +303,7 @@ func (s *APISer) Call(target string, rootTy *Type, c *Call) bool {
 				}
 				return line("sp %d %s", i, v)
 			case len(c.Args) == 1 && f.Type.Kind == KStruct && f.Type.Def.Dict != "":
-				src, ok := s.source(c.Args[0], f.Type, target, path+"/f"+strconv.Itoa(i))
+				src, ok := s.source(c.Args[0], f.Type, target, joinPath(path, "f"+strconv.Itoa(i)))
 				if !ok {
 					return false
 				}
@@ -377,9 +385,6 @@ func (s *APISer) Call(target string, rootTy *Type, c *Call) bool {
 		return s.no("array-unknown-method")
 	case KMultimap:
 		kt, vt := t.Def.Key, t.Def.Val
-		if (kt.Kind == KStruct && kt.Def.Dict != "") || (vt.Kind == KStruct && vt.Def.Dict != "") {
-			return s.no("multimap-of-dict-structs")
-		}
 		switch {
 		case m == "CopyFrom" && len(c.Args) == 1:
 			src, ok := s.source(c.Args[0], t, target, path)
@@ -399,6 +404,18 @@ func (s *APISer) Call(target string, rootTy *Type, c *Call) bool {
 			code := "sk"
 			if m == "SetValue" {
 				et, code = vt, "sv"
+			}
+			if ok && i >= 0 && et.Kind == KStruct && et.Def.Dict != "" {
+				// SetKey(i, k) / SetValue(i, v) of a dictionary-struct key / value: op sko / svo
+				step := "k"
+				if m == "SetValue" {
+					step = "v"
+				}
+				src, ok := s.source(c.Args[1], et, target, joinPath(path, step+strconv.Itoa(i)))
+				if !ok {
+					return false
+				}
+				return line("%so %d %s", code, i, src)
 			}
 			if !ok || i < 0 || !et.Kind.Primitive() {
 				return s.no("multimap-set-arg")
